@@ -147,7 +147,8 @@ class ParticleReleaser(Iterator[pd.DataFrame]):
     def update(self) -> None:
         """Release new particles (if any)"""
         step = self.modules["time"].step
-        if step in self.steps:
+        # Several release times may fall inside one model time step
+        while self._index < len(self.steps) and self.steps[self._index] <= step:
             V = next(self)
             self.modules["state"].append(**V)
 
